@@ -252,23 +252,36 @@ class ANMLWriter:
             ],
             str,
         ] = {}
-        # Init names_mapping.
+        # Init names_mapping. A valid name is kept only while it is still unused: with the environment
+        # flag error_used_name disabled, different elements of a problem can have the same name.
         env = self.problem.environment
         names_mapping[env.type_manager.BoolType()] = "boolean"
         names_mapping[env.type_manager.IntType()] = "integer"
         names_mapping[env.type_manager.RealType()] = "float"
         for t in self.problem.user_types:
             ut = cast(_UserType, t)
-            if _is_valid_anml_name(ut.name):  # No renaming needed
+            if (
+                _is_valid_anml_name(ut.name)
+                and ut.name not in names_mapping.values()
+            ):  # No renaming needed
                 names_mapping[t] = ut.name
         for a in self.problem.actions:
-            if _is_valid_anml_name(a.name):  # No renaming needed
+            if (
+                _is_valid_anml_name(a.name)
+                and a.name not in names_mapping.values()
+            ):  # No renaming needed
                 names_mapping[a] = a.name
         for f in self.problem.fluents:
-            if _is_valid_anml_name(f.name):  # No renaming needed
+            if (
+                _is_valid_anml_name(f.name)
+                and f.name not in names_mapping.values()
+            ):  # No renaming needed
                 names_mapping[f] = f.name
         for o in self.problem.all_objects:
-            if _is_valid_anml_name(o.name):  # No renaming needed
+            if (
+                _is_valid_anml_name(o.name)
+                and o.name not in names_mapping.values()
+            ):  # No renaming needed
                 names_mapping[o] = o.name
 
         for t in self.problem.user_types:
